@@ -83,9 +83,33 @@ func (s Schema) Build() (*DB, error) {
 }
 
 func (s Schema) BuildWithIndexes(clientIdx map[string][]model.ClientIndex) (*DB, error) {
+	return s.build(clientIdx, nil)
+}
+
+// BuildHiding builds models that have no field for the named columns (table -> column -> true): a client model covering
+// a subset of the schema. Spec then lists the visible columns only; the schema stays complete.
+func (s Schema) BuildHiding(hide map[string]map[string]bool) (*DB, error) {
+	return s.build(nil, hide)
+}
+
+func (s Schema) build(clientIdx map[string][]model.ClientIndex, hide map[string]map[string]bool) (*DB, error) {
 	var schema ovsdb.DatabaseSchema
 	if err := json.Unmarshal([]byte(s.JSON()), &schema); err != nil {
 		return nil, fmt.Errorf("schema: %v (%s)", err, s.JSON())
+	}
+	if hide != nil {
+		vis := Schema{Name: s.Name}
+		for _, t := range s.Tables {
+			vt := t
+			vt.Cols = nil
+			for _, c := range t.Cols {
+				if !hide[t.Name][c.Name] {
+					vt.Cols = append(vt.Cols, c)
+				}
+			}
+			vis.Tables = append(vis.Tables, vt)
+		}
+		s = vis
 	}
 	db := &DB{Spec: s, Schema: schema, types: map[string]reflect.Type{}, field: map[string]map[string]int{}}
 	models := map[string]model.Model{}
